@@ -332,9 +332,9 @@ def _load(cfg):
     rc = os.path.join(d, 'rc_%d.rc' % os.getpid())
     with open(rc, 'w') as fh:
         fh.write('[System]\nipadd = %d\n[PFlow]\nsparselib = %s\nlinsolve = %d\nmethod = %s\nn_factorize = %d\n'
-                 '[TDS]\nsparselib = %s\nlinsolve = %d\nhonest = %d\ntf = %s\n'
+                 '[TDS]\nsparselib = %s\nlinsolve = %d\nhonest = %d\ntf = %s\n[EIG]\nsparselib = %s\nlinsolve = %d\n'
                  % (cfg['ipadd'], cfg['lib'], cfg['linsolve'], cfg['method'], cfg['nf'],
-                    cfg['lib'], cfg['linsolve'], cfg.get('honest', 0), cfg.get('tf', 0)))
+                    cfg['lib'], cfg['linsolve'], cfg.get('honest', 0), cfg.get('tf', 0), cfg['lib'], cfg['linsolve']))
     ss = andes.load(andes.get_case(cfg['case']), no_output=True, config_path=rc)
     os.remove(rc)
     return ss
@@ -366,6 +366,24 @@ def run_routine(cfg):
         ok = bool(pf.run())
         out = {'cfg': cfg, 'pf_ok': ok, 'pf_steps': steps, 'pf_lib': pf.solver.sparselib,
                'pf_xy': [C.f2h(v) for v in np.concatenate([ss.dae.x, ss.dae.y])]}
+        if cfg.get('eig') and ok:
+            # eigenvalue analysis through the configured back-end, and the same state matrix computed densely here
+            import io
+            import contextlib
+            from kvxopt import matrix as _mat
+            with contextlib.redirect_stdout(io.StringIO()):
+                eok = bool(ss.EIG.run())
+            mu = np.array(ss.EIG.mu).ravel()
+            dae = ss.dae
+            fx, fy, gx, gy = (np.array(_mat(getattr(dae, k))) for k in ('fx', 'fy', 'gx', 'gy'))
+            Tf = np.array(dae.Tf, dtype=float)
+            out['eig_zero_T'] = int((Tf == 0).sum())
+            ref = np.linalg.eigvals((fx - fy @ np.linalg.solve(gy, gx)) / np.where(Tf == 0, 1.0, Tf)[:, None])
+            key = lambda z: (round(z.real, 6), round(abs(z.imag), 6))     # noqa
+            out.update({'eig_ok': eok, 'eig_lib': ss.EIG.solver.sparselib,
+                        'eig_mu': [[float(z.real), float(abs(z.imag))] for z in sorted(mu, key=key)],
+                        'eig_ref': [[float(z.real), float(abs(z.imag))] for z in sorted(ref, key=key)]})
+            return out
         if cfg.get('tf', 0) > 0 and ok:
             tds = ss.TDS
             tds.config.no_tqdm = 1
@@ -435,11 +453,20 @@ def routine_cfgs(ctx):
         for lib, lin, h in variants:
             cfgs.append({'case': case, 'lib': lib, 'linsolve': lin, 'ipadd': rng.choice([0, 1]), 'method': 'NR', 'nf': 4,
                          'tf': tf, 'honest': h})
+    # eigenvalue analysis of one case through the SuiteSparse back-ends, both entry points (the SciPy back-end does
+    # not accept the matrix right-hand side EIG hands it: not part of the comparison)
+    for lib in ('klu', 'umfpack'):
+        for lin in (0, 1):
+            cfgs.append({'case': 'kundur/kundur_full.xlsx', 'lib': lib, 'linsolve': lin, 'ipadd': 1, 'method': 'NR', 'nf': 4, 'eig': 1})
     return cfgs
 
 
 def _close(a, b, tol):
     return all((x == y) or abs(x - y) <= tol * (1 + abs(y)) for x, y in zip(a, b)) and len(a) == len(b)
+
+
+def np_flat(pairs):
+    return [v for p in pairs for v in p]
 
 
 def check_routines(ctx):
@@ -468,6 +495,18 @@ def check_routines(ctx):
             if 'J' in ops and not ('n' in ops or 'f' in ops):
                 ctx.oracle_fail('jacobian-update-without-refresh', 'PFlow.nr_step rebuilt the Jacobian without '
                                 'requesting a refresh from the solver', dict(cfg, niter=ni))
+        if cfg.get('eig'):
+            ctx.count('eig_runs')
+            if 'eig_mu' in r and r.get('eig_zero_T', 0) == 0:
+                a = np_flat(r['eig_mu'])
+                b = np_flat(r['eig_ref'])
+                d = max([abs(p - q) for p, q in zip(a, b)] + [0.0]) if len(a) == len(b) else float('inf')
+                ctx.cov['max_eig_vs_dense_reference'] = max(ctx.cov.get('max_eig_vs_dense_reference', 0.0), d)
+                if not r['eig_ok'] or d > 1e-6 * (1 + max(abs(x) for x in b)):
+                    ctx.oracle_fail('eig-depends-on-backend', 'eigenvalues through %s (linsolve=%d) differ by %.3g from the dense '
+                                    'computation of T^-1(fx - fy gy^-1 gx) of the same operating point (run ok: %s)'
+                                    % (cfg['lib'], cfg['linsolve'], d, r['eig_ok']), cfg)
+            continue
         by_case.setdefault(cfg['case'], []).append(r)
         if 'tds_iters' in r:
             ctx.count('tds_runs')
